@@ -107,7 +107,7 @@ func verifC17RunOne(base string, run verifC17Run) (out verifC17Outcome) {
 	}
 	for gi, g := range run.Gens {
 		gen := gi + 1
-		cmd := osexec.Command(os.Args[0], "-test.run", "^TestVerifC17Child$", "-test.count=1", "-test.timeout", "60s")
+		cmd := osexec.Command(os.Args[0], "-test.run", "^TestVerifC17Child$", "-test.count=1", "-test.timeout", "300s")
 		env := []string{}
 		for _, kv := range os.Environ() {
 			if strings.HasPrefix(kv, "VERIF_OUT=") || strings.HasPrefix(kv, "VERIF_IN=") {
@@ -147,7 +147,7 @@ func verifC17RunOne(base string, run verifC17Run) (out verifC17Outcome) {
 			fmt.Sscanf(g.Kill[5:], "%d", &us)
 			timeKill = time.After(time.Duration(us) * time.Microsecond)
 		}
-		hang := time.After(45 * time.Second)
+		hang := time.After(200 * time.Second)
 		var werr error
 		hung := false
 	wait:
